@@ -591,7 +591,38 @@ func corsHistory(c *Ctx, prop string, cfg corsCfg, r *mux.Router[*mon.Hnd], env 
 	}
 	anyM := []string{"GET", "POST", "DELETE", "PUT", "PATCH", "CONNECT"}
 	var ops []string
-	for step := 0; step < 8 && !c.Violated(); step++ {
+	ask := func(m, origin, acrm, acrh string, cur []string) bool {
+		q := corsReq{Method: m, PathClass: "live", HasOrigin: true, Origin: origin, ACRM: acrm, ACRH: acrh, class: fmt.Sprintf("after %v: %s origin=%s acrm=%q", ops, m, origin, acrm)}
+		if cur == nil {
+			q.PathClass = "notfound" // the route is gone: every request is a 404
+		}
+		hdr := map[string]string{"Origin": q.Origin}
+		if q.ACRM != "" {
+			hdr[hACRM] = q.ACRM
+		}
+		if q.ACRH != "" {
+			hdr[hACRH] = q.ACRH
+		}
+		o := mon.Do(r, mon.Req{Method: m, Path: "/c/7", Header: hdr})
+		c.Eval()
+		if o.Panicked || o.NilHandler {
+			c.Violate("CORS request panicked or nil handler", map[string]any{"config": cfg.class, "request": q.class})
+			return false
+		}
+		c11, c12 := corsJudge(cfg, q, o.Status, o.Header, cur)
+		cm := c11
+		if prop == "C12" {
+			cm = c12
+		}
+		if len(cm) > 0 {
+			c.Violate(strings.Join(cm, "; "), map[string]any{"config": cfg.class, "request": q.class, "route_allow": cur, "request_headers": hdr, "status": o.Status, "response_headers": o.Header})
+			return false
+		}
+		c.Class("history_request_judged")
+		return true
+	}
+	for step := 0; step < 12 && !c.Violated(); step++ {
+		repeat := ""
 		switch rnd.Intn(5) {
 		case 0, 1: // add a method that is not live
 			var free []string
@@ -608,6 +639,20 @@ func corsHistory(c *Ctx, prop string, cfg corsCfg, r *mux.Router[*mon.Hnd], env 
 			}
 		case 2, 3: // remove by name: a live one, an absent one, a repeated one
 			ms := []string{ref.Pick(rnd, anyM), ref.Pick(rnd, anyM)}
+			if len(live) > 1 && rnd.Bool() {
+				// exactly one live method, so that the route survives with the others: an answer remembered for the removed
+				// method would now be wrong
+				var names []string
+				for m := range live {
+					names = append(names, m)
+				}
+				sort.Strings(names)
+				ms = []string{ref.Pick(rnd, names)}
+				repeat = ms[0]
+				if !ask("OPTIONS", "https://a.example", repeat, "", allow()) {
+					return
+				}
+			}
 			if rnd.Bool() {
 				ms = append(ms, ms[0])
 			}
@@ -622,42 +667,24 @@ func corsHistory(c *Ctx, prop string, cfg corsCfg, r *mux.Router[*mon.Hnd], env 
 			ops = append(ops, "Remove all")
 		}
 		cur := allow()
+		if repeat != "" && !ask("OPTIONS", "https://a.example", repeat, "", cur) {
+			return // the browser repeats the preflight it sent just before the method was removed: first request after the removal
+		}
+		acrms := []string{"", "GET", "POST", "PUT", "DELETE", "PATCH", "HEAD", "OPTIONS", "TRACE"}
+		ref.Shuffle(rnd, acrms)
 		for _, m := range []string{"GET", "POST", "OPTIONS", "PUT", "DELETE"} {
 			for _, origin := range []string{"https://a.example", "https://evil.example"} {
-				for _, acrm := range []string{"", "GET", "POST", "PUT", "DELETE", "PATCH", "HEAD", "OPTIONS", "TRACE"} {
+				for _, acrm := range acrms {
 					if acrm != "" && m != "OPTIONS" {
 						continue
 					}
-					q := corsReq{Method: m, PathClass: "live", HasOrigin: true, Origin: origin, ACRM: acrm, class: fmt.Sprintf("after %v: %s origin=%s acrm=%q", ops, m, origin, acrm)}
+					acrh := ""
 					if len(cfg.AllowH) > 0 && !hasAny(cfg.AllowH) && rnd.Bool() {
-						q.ACRH = strings.ToLower(cfg.AllowH[0])
+						acrh = strings.ToLower(cfg.AllowH[0])
 					}
-					if cur == nil {
-						q.PathClass = "notfound" // the route is gone: every request is a 404
-					}
-					hdr := map[string]string{"Origin": q.Origin}
-					if q.ACRM != "" {
-						hdr[hACRM] = q.ACRM
-					}
-					if q.ACRH != "" {
-						hdr[hACRH] = q.ACRH
-					}
-					o := mon.Do(r, mon.Req{Method: m, Path: "/c/7", Header: hdr})
-					c.Eval()
-					if o.Panicked || o.NilHandler {
-						c.Violate("CORS request panicked or nil handler", map[string]any{"config": cfg.class, "request": q.class})
+					if !ask(m, origin, acrm, acrh, cur) {
 						return
 					}
-					c11, c12 := corsJudge(cfg, q, o.Status, o.Header, cur)
-					cm := c11
-					if prop == "C12" {
-						cm = c12
-					}
-					if len(cm) > 0 {
-						c.Violate(strings.Join(cm, "; "), map[string]any{"config": cfg.class, "request": q.class, "route_allow": cur, "request_headers": hdr, "status": o.Status, "response_headers": o.Header})
-						return
-					}
-					c.Class("history_request_judged")
 				}
 			}
 		}
